@@ -36,8 +36,10 @@ func (e *Engine) rootEnv(st *State, results []Val) *SpecEnv {
 	if e.fn.Pkg != nil {
 		env.pkg = e.fn.Pkg.Pkg
 	}
+	env.rootParams = map[string]bool{}
 	for k, v := range e.paramVals {
 		env.vars[k] = v
+		env.rootParams[k] = true
 	}
 	if results != nil {
 		e.bindResults(env, e.fn.Signature, results)
@@ -117,6 +119,24 @@ func (e *Engine) lookupIdent(cur *State, name string, env *SpecEnv) (Val, bool) 
 	if dollar {
 		name = name[1:]
 	} else if v, ok := env.vars[name]; ok {
+		// inside the body (loop invariants, call assertions) a parameter name denotes the
+		// current value of the (mutable) parameter variable; in pre/postconditions its entry value
+		if env.fr != nil && !env.localsOnlyDollar && env.fr.fn == e.fn && env.rootParams[name] {
+			best := -1
+			for a, id := range env.fr.cells {
+				if a.Comment == name && id > best {
+					best = id
+				}
+			}
+			if best >= 0 {
+				if cv, ok := cur.cells[best]; ok {
+					if cv.Ty == nil {
+						cv.Ty = v.Ty
+					}
+					return cv, true
+				}
+			}
+		}
 		return v, true
 	}
 	// named local of the root frame: the live cell with that name (latest allocation wins)
@@ -169,7 +189,7 @@ func (e *Engine) objVal(cur *State, o types.Object) (Val, bool) {
 		}
 	case *types.Func:
 		if fn := e.P.prog.FuncValue(x); fn != nil {
-			return Val{K: KFunc, Ty: x.Type(), Fn: fn}, true
+			return Val{K: KFunc, Ty: x.Type(), Fn: fn, T: e.P.reg.fnID(fn.String())}, true
 		}
 	}
 	return Val{}, false
@@ -310,6 +330,10 @@ func (e *Engine) evalSpec(cur, old *State, x SExpr, env *SpecEnv) Val {
 				saved[v.Name] = nil
 			}
 			env.vars[v.Name] = bv
+			if env.rootParams[v.Name] {
+				delete(env.rootParams, v.Name)
+				defer func(n string) { env.rootParams[n] = true }(v.Name)
+			}
 		}
 		// side facts produced while evaluating the body mention the bound variables: evaluate on
 		// scratch copies and drop them
@@ -628,6 +652,18 @@ func (e *Engine) specCall(cur, old *State, n SCall, env *SpecEnv) Val {
 			a := e.evalSpec(cur, old, n.Args[0], env)
 			b := e.evalSpec(old, old, n.Args[0], env)
 			return e.specBin2(cur, "==", a, b)
+		case "deref": // value a pointer points to
+			v := arg(0)
+			if v.K == KPtr && v.Ty != nil {
+				if pt := e.pointee(v.Ty); pt != nil {
+					return e.loadHeapCell(cur, pt, v.T)
+				}
+			}
+			if v.K == KAddr && v.A != nil && v.A.Ty != nil {
+				return e.load(cur, v, v.A.Ty)
+			}
+			e.specErr("deref() of a non-pointer")
+			return Val{K: KOpaque, T: e.fresh("specerr", "Int")}
 		case "base": // backing array of a slice
 			v := arg(0)
 			if v.K == KSlice {
@@ -731,6 +767,10 @@ func (e *Engine) specCall(cur, old *State, n SCall, env *SpecEnv) Val {
 					}
 				}
 				env.vars[pp.Name] = v
+				if env.rootParams[pp.Name] {
+					delete(env.rootParams, pp.Name)
+					defer func(n string) { env.rootParams[n] = true }(pp.Name)
+				}
 			}
 			r := e.evalSpec(cur, old, p.Body, env)
 			for k, o := range saved {
@@ -875,7 +915,12 @@ func (e *Engine) finish(st *State, rs []Val, root *Frame) {
 	e.noAssume = true
 	defer func() { e.noAssume = false }()
 	for k, c := range e.con.get("ensures") {
+		nerr, nnote := len(e.specErrors), len(e.notes)
 		g := e.evalSpecBool(st, e.entry, c.Expr, env)
+		if c.Optional && len(e.specErrors) > nerr {
+			e.specErrors, e.notes = e.specErrors[:nerr], e.notes[:nnote]
+			continue
+		}
 		lbl := c.Label
 		if lbl == "" {
 			lbl = fmt.Sprint(k + 1)
